@@ -21,7 +21,8 @@ RULE = (
     "main, entry point inside/outside a function, with and without function tables, a data block) x (AllBlocksScope x "
     "3 positions x 6 exclusion filters (none, literal, regex, MAIN, ENTRYPOINT, empty set), AllFunctionsScope x {ENTRY,EXIT} x 3 block positions x 5 filters (incl. empty set and matching nothing), SingleBlockScope "
     "per block x 3 positions) for single registrations; ordered pairs and triples of registrations spread over 1-2 passes "
-    "on a reduced module set; all through the real PassManager. A case is one PassManager.run(); non-trivial = the scope "
+    "on a reduced module set (two different exclusion filters in one run included; the first patch with and without contents for "
+    "another section); all through the real PassManager. A case is one PassManager.run(); non-trivial = the scope "
     "designates at least one block; distinct by (module, registrations)"
 )
 ASSUMPTIONS = [
@@ -31,7 +32,7 @@ ASSUMPTIONS = [
     "x86-64 ELF only",
 ]
 BOUNDS = {"quick": {"registrations": "1 (all), 2 (reduced)", "passes": 2}, "thorough": {"registrations": "1, 2, 3", "passes": 2}}
-CAP_S = {"quick": 150, "thorough": 2400}
+CAP_S = {"quick": 300, "thorough": 2400}
 
 TERMS = [None, ["jmp", "A"], ["jcc", "A"], ["call", "A"], ["ret"], ["ijmp"], ["icall"], ["syscall"]]
 FUNCS = (("f", "f", "g"), ("f", "g", "g"), (None, "f", "f"), ("main", "main", "g"), ("f", "f", "f"), ("f", None, "g"), ("f", "g", None))
@@ -170,18 +171,24 @@ def run_case(spec, regs):
     isa_ = w.isa
     log = []
     npass = max(r[0] for r in regs) + 1
+    regs3 = [tuple(r[:3]) for r in regs]
     unresolvable = []
 
     def mk_pass(pi):
         class P(Pass):
             def begin_module(self, module, functions, ctx):
-                for ri, (p, sc, pos) in enumerate(regs):
+                for ri, reg in enumerate(regs):
+                    p, sc, pos = reg[:3]
+                    side = len(reg) > 3 and reg[3]
                     if p != pi:
                         continue
 
-                    def asm(ic, ri=ri):
+                    def asm(ic, ri=ri, side=side):
                         log.append((ri, names.get(id(ic.block), "?"), ic.offset, ic.function.get_name() if ic.function else None))
-                        return isa_.asm(("p", 100 + len(log)))
+                        text = isa_.asm(("p", 100 + len(log)))
+                        if side:  # the patch also brings contents for another section: they are no part of the block's text
+                            text += '\n.section .vfside,"a",@progbits\n.byte 1, 2, 3\n.text\n'
+                        return text
 
                     try:
                         ctx.register_insert(build_scope(w, sc, pos), Patch.from_function(asm, Constraints()))
@@ -200,7 +207,7 @@ def run_case(spec, regs):
     diffs = []
     mods = []
     ndes = 0
-    for ri, (p, sc, pos) in enumerate(regs):
+    for ri, (p, sc, pos) in enumerate(regs3):
         needs_f = sc[0].startswith("fn-")
         if needs_f and not spec.get("functions", True):
             if ri not in unresolvable:
@@ -236,6 +243,9 @@ def run_case(spec, regs):
     mods.sort(key=lambda m_: m_["_reg"])
     E, _ = Lg.expected(spec, [{k: v for k, v in m_.items() if k != "_reg"} for m_ in mods])
     O = Lg.observe(w)
+    nside = sum(1 for e in log if len(regs[e[0]]) > 3 and regs[e[0]][3])
+    if nside:
+        E.bytes[".vfside"] = bytes([1, 2, 3]) * nside  # one copy per invocation, in a section of their own
     diffs.extend(C.bytes_diffs(E, O))
     return diffs, ("ok" if not diffs else "diff"), ndes
 
@@ -278,21 +288,23 @@ def run_task(task):
         res.sample({"module": [ta, tb, list(FUNCS[0])], "regs": [[0, ["all", None], "EXIT"]]}, cap=1)
         return res
     # several registrations, 1-2 passes
-    scs = [s for s in SCOPES if s in (["all", None], ["all", "lit"], ["fn-entry", None], ["fn-exit", None], ["single", "B"])]
+    scs = [s for s in SCOPES if s in (["all", None], ["all", "lit"], ["all", "re"], ["fn-entry", None], ["fn-exit", None], ["single", "B"])]
     for fi in (0, 2):
         spec = make_spec(ta, tb, FUNCS[fi], True)
         for (s1, p1), (s2, p2) in itertools.product(itertools.product(scs, POS), repeat=2):
             for passes in ((0, 0), (0, 1)):
-                regs = [(passes[0], s1, p1), (passes[1], s2, p2)]
-                diffs, outcome, nd = run_case(spec, regs)
-                res.case((ai, bi, fi, regs), nontrivial=nd > 0, outcome=outcome)
-                if diffs:
-                    res.bad({"ta": ai, "tb": bi, "funcs": fi, "functions": True, "regs": [list(r) for r in regs]}, diffs)
+                # (.., True): the first registration's patch also emits bytes into another section
+                for side in ((False, True) if passes == (0, 0) and p1 == "ENTRY" else (False,)):
+                    regs = [(passes[0], s1, p1, side), (passes[1], s2, p2, False)]
+                    diffs, outcome, nd = run_case(spec, regs)
+                    res.case((ai, bi, fi, regs), nontrivial=nd > 0, outcome=outcome)
+                    if diffs:
+                        res.bad({"ta": ai, "tb": bi, "funcs": fi, "functions": True, "regs": [list(r) for r in regs]}, diffs)
         res.sample({"module": [ta, tb, list(FUNCS[fi])], "regs": [[0, ["all", None], "EXIT"], [1, ["single", "B"], "EXIT"]]}, cap=1)
     return res
 
 
 def replay(case):
     spec = make_spec(TERMS[case["ta"]], TERMS[case["tb"]], FUNCS[case["funcs"]], case["functions"], case.get("target", "x64-elf"))
-    regs = [(r[0], r[1], r[2]) for r in case["regs"]]
+    regs = [tuple(r) for r in case["regs"]]
     return run_case(spec, regs)[0]
